@@ -1,4 +1,5 @@
 """C17 — partition_parallel returns a stripe-ordered permutation of its input (DESIGN.md §7 C17)."""
+from vcommon import pure
 import os
 
 # must precede the first numba import in this process
@@ -368,7 +369,7 @@ def process(ctx, cases, fn, fn_py):
 
 def run(ctx):
     from abacusnbody.analysis.tsc import partition_parallel
-    fn_py = getattr(partition_parallel, 'py_func', None)
+    fn_py = pure(partition_parallel) if hasattr(partition_parallel, 'py_func') else None
     check_blocks(ctx)
     corpus = corpus_cases()
     ctx.count('corpus', len(corpus))
@@ -386,7 +387,7 @@ def intensify(ctx):
                               str(rng.choice(['f4', 'f8'])), bool(rng.integers(0, 2)), bool(rng.integers(0, 2)),
                               str(rng.choice(STYLES[:7]))))
     if ctx.driver is not None and not ctx.driver.error:
-        process(ctx, cases, partition_parallel, getattr(partition_parallel, 'py_func', None))
+        process(ctx, cases, partition_parallel, pure(partition_parallel) if hasattr(partition_parallel, 'py_func') else None)
     else:
         for c in cases:
             oracle(ctx, c, run_impl(c, partition_parallel), 'compiled')
@@ -395,4 +396,4 @@ def intensify(ctx):
 def replay(ctx, doc):
     from abacusnbody.analysis.tsc import partition_parallel
     c = doc['failure']['case'] if 'failure' in doc else doc
-    process(ctx, [c], partition_parallel, getattr(partition_parallel, 'py_func', None))
+    process(ctx, [c], partition_parallel, pure(partition_parallel) if hasattr(partition_parallel, 'py_func') else None)
